@@ -1,9 +1,17 @@
 #!/bin/bash
-# offline setup: warm the Kani target dir (first build of the harness crate) so that the
-# first ./check does not pay for it.  Everything lives under /verif/.cache.
+# offline setup: warm the Kani target dir (first build of the harness crate) and the MIR dumps so
+# that the first ./check does not pay for them.  Everything lives under /verif/.cache.
 set -e
 export CARGO_NET_OFFLINE=true
+mkdir -p /verif/.cache
 cd /verif/kani
 cp /repo/Cargo.lock Cargo.lock
 cargo kani -Z stubbing --target-dir /verif/.cache/kani-target --only-codegen > /verif/.cache/setup_kani.log 2>&1 || { tail -30 /verif/.cache/setup_kani.log; exit 1; }
+cd /verif
+python3 mirsym/mirdump.py tx3-tir tx3-cardano tx3-resolver tx3-lang > /verif/.cache/setup_mir.log 2>&1 || { tail -30 /verif/.cache/setup_mir.log; exit 1; }
+python3 - <<'PY'
+import subprocess
+for ovf in ("off",):
+    subprocess.run(["python3", "-c", "import sys; sys.path.insert(0,'/verif/mirsym'); import mirdump; mirdump.dump('tx3-tir','off')"], check=True)
+PY
 echo setup ok
